@@ -1,12 +1,41 @@
-(** Property C05 — @render/@children placement.
-    OBLIGATIONS: C05_nonvacuous *)
-From GV Require Import Compiler.Compile.
+(** Property C05 — @render/@children: nested content goes exactly where the callee places it.
+    Theorems are about Runtime/Children.v: the slot protocol of runtime.go (PopChildren at template entry,
+    PushChildren before a call with a block, the block closing over the caller's own children) against a
+    specification without any slot, in which children are lexically scoped values.  They hold for every set of
+    templates (any call graph, recursion included) and every nesting depth (fuel).
+    OBLIGATIONS: C05_children_lexical C05_template_lexical C05_slot_empty_afterwards C05_childless_call_sees_none
+      C05_nonvacuous *)
+From GV Require Import Runtime.Children Proofs.RuntimeProofs.
 
+Theorem C05_children_lexical : forall templates fuel stmts children,
+  exec_stmts templates fuel stmts children None = (denote_stmts templates fuel stmts children, None).
+Proof. exact children_lexical. Qed.
+Print Assumptions C05_children_lexical.
+
+Theorem C05_template_lexical : forall templates fuel i,
+  exec_template templates fuel i = denote_template templates fuel i.
+Proof. exact template_lexical. Qed.
+Print Assumptions C05_template_lexical.
+
+Theorem C05_slot_empty_afterwards : forall templates fuel stmts children,
+  snd (exec_stmts templates fuel stmts children None) = None.
+Proof. exact slot_empty_after. Qed.
+Print Assumptions C05_slot_empty_afterwards.
+
+(** a call without nested content gives the callee empty children even when the caller has children *)
+Theorem C05_childless_call_sees_none : forall templates fuel callee rest children,
+  denote_stmts templates (S fuel) (SRender callee None :: rest) children =
+  denote_stmts templates fuel (body_of templates callee) None ++ denote_stmts templates fuel rest children.
+Proof. exact childless_call_sees_none. Qed.
+Print Assumptions C05_childless_call_sees_none.
+
+(** non-vacuity: a layout using its children twice, a page whose block forwards the page's own children and calls
+    a child-less template that itself contains @children *)
 Example C05_nonvacuous :
-  let src := lit "@goht P() {" ++ [10; 9] ++ lit "= @render L()" ++ [10; 9; 9] ++ lit "%p in" ++ [10] ++ lit "}" ++ [10] in
-  match cli_generate src with
-  | Some out => contains (lit "goht.PushChildren(ctx, __var1)") out
-  | None => false
-  end = true.
+  let layout := [SLit (lit "<l>"); SChildren; SLit (lit "|"); SChildren; SLit (lit "</l>")] in
+  let inner := [SLit (lit "(i"); SChildren; SLit (lit ")")] in
+  let page := [SRender 0 (Some [SLit (lit "a"); SChildren; SRender 1 None])] in
+  let main := [SRender 2 (Some [SLit (lit "MAIN")])] in
+  exec_template [layout; inner; page; main] 20 3 = lit "<l>aMAIN(i)|aMAIN(i)</l>".
 Proof. vm_compute. reflexivity. Qed.
 Print Assumptions C05_nonvacuous.
